@@ -71,7 +71,7 @@ CHECKS = {
    category="model_checking",
    text="Explicit-state breadth-first search over client operation histories on the real client.Client (rebuilt and replayed per history, run under the cooperative scheduler so that the TGT auto-renewal goroutine runs to quiescence deterministically after every event): alphabet {login, service ticket for two SPNs and an other-realm SPN, clock advance by 1 s / to the next pending timer / to 1 s before and after the earliest cached ticket end / past the TGT end / past renew-till, destroy}; depth 4 (7 thorough) on the default and on a renewable short-lived configuration, depth 3 (4) on a pairwise-covering set of 22 configurations over 9 settings (credential kind, etype list, pre-authentication policy, forwardable, proxiable, canonicalize, renew_lifetime, ticket_lifetime, FAST negotiation); referral chains of 0..8 realms. States are deduplicated by a canonical key (sessions, cache entries and pending timers relative to the clock). Oracle: the simulated KDC validates every request strictly against what the rendered krb5.conf implies and keeps an issue log; every returned (ticket, key) must be in the log for that SPN and inside its validity at return time; operations must succeed against the conformant KDC; exchanges per event are bounded; no deadlock or livelock.",
    design="DESIGN.md 2/C10, 1.3",
-   note="noaddresses is always set (local interface addresses are environment-dependent). Not judged: re-requesting although a valid ticket is cached. Known finding: authenticator crealm taken from the presented ticket's realm (multi-hop cross-realm and renewal of other-realm service tickets fail). The default schedule only; interleavings are C11's subject.",
+   note="noaddresses is always set (local interface addresses are environment-dependent). Not judged: re-requesting although a valid ticket is cached. The authenticator-crealm defect of multi-hop referrals found here is repaired in /repo (39872a2). A client built from a credential cache cannot log in again: its failures after the newest TGT's end are not judged. The default schedule only; interleavings are C11's subject.",
    technique="explicit-state BFS over operation histories on the real client with canonical-state deduplication, against a simulated KDC (request validation + issue log)",
    engine="bfs+sched"),
  "C11": dict(
@@ -146,6 +146,30 @@ CHECKS = {
    engine="enum"),
 }
 
+# What the seeded-change rounds added to each check after the text above was written (appended to the text).
+EXT = {
+ "C01": "Added later: catalogue entries for kvno differing by multiples of 256, names with the same rendering but another split, names differing only in case, empty ticket realm, times at the extremes of the representable range, PAC defects; tickets with addresses are judged against the configured client address.",
+ "C02": "Added later: timestamps differing below the second and presented in other time zones, service names differing only in case, presentations at 2 x skew - 500 ms; the same histories driven through service.VerifyAPREQ (keytab principal override with altered clear-text sname, two skews, a 6000-authenticator history) and a concurrent VerifyAPREQ scenario.",
+ "C03": "Added later: one wrapper shared by a sequence and by two scheduled requests (address-bound tickets from two remote addresses), a second user and the cookie of the first user's session, remote-address shapes (IPv4/IPv6/with zone/without port), replayed tokens with one letter of the clear-text sname in another case.",
+ "C04": "Added later: truncation inside nested DER elements with consistent outer lengths, raw (non-DER) nodes, seeds above 64 KiB for length-prefixed PAC buffers, a guard that reports a seed the library refuses once by name.",
+ "C05": "Added later: dense usage sweep 1..8192, caller-buffer integrity after every call, aliasing histories (key buffer overwritten in place: A, B, A), sibling etypes sharing key bytes, schedules of two concurrent encryptions/decryptions plus a free-running -race pass.",
+ "C06": "Added later: the three decryption APIs (DecryptMessage, DecryptEncPart, etype method), a usage matrix 0..32 x 0..32 and a dense sweep 1..1200 after a prior operation with a colliding usage, a genuine ciphertext retried after a failed attempt on the same buffers, returned bytes judged even when an error is returned.",
+ "C07": "Added later: dense usage sweep 0..8192, keys of wrong length, empty and over-long presented checksums, keys differing in one bit, aliasing histories, concurrent schedules.",
+ "C08": "Added later: unrelated PA-data elements at every position of every hint sequence, ETYPE-INFO and ETYPE-INFO2 naming different etypes, default salts for 10 realms (lower/mixed case, non-ASCII, empty, blanks) x 10 names x etypes x hint shapes without salt.",
+ "C09": "Added later: world variants (every exchange forced onto TCP by RESPONSE_TOO_BIG, two-component client principal with a sibling keytab entry, canonicalize, forwardable+proxiable, a KDC that always advertises an explicit salt), replies sealed under a sibling principal's key, enc-parts that decrypt but are not a complete EncKDCRepPart (cut at every offset for one configuration, sample offsets elsewhere; foreign application tags), stale replies to an earlier nonce, KRB-ERROR codes 0..100.",
+ "C10": "Added later: time elapsing over two ticket lifetimes with every timer firing at its own instant, KDCs that replace the session key on renewal, referral chains 0..12 and a referral cycle against strict and lenient KDCs (plateau of the exchange count demanded), clients built from a credential cache holding a TGT and a shorter-lived service ticket (not renewable / renewable / renewable with key replacement), nested [domain_realm] suffixes, a virtual clock in a non-UTC zone.",
+ "C11": "Added later: scenarios print-vs-login/destroy, cached-ticket-vs-new-ticket, two requests for an expired renewable ticket, lookups with 3 KDCs; the race pass judges the same invariants on the executions it sees and turns goroutines still blocked after 60 s into a deadlock violation.",
+ "C12": "Added later: I/O deadlines judged per KDC on the virtual clock, replies retained across attempts, reply sizes around the UDP limit and the TCP length prefix, realm names that are not upper case.",
+ "C13": "Added later: consecutive tickets alternating kvno present/absent, negative nonces, round trips through the keytab path and VerifyAPREQ with kvno omitted, all lengths 0..2^24 for the length helpers, re-encoding after decrypt for every encrypted container.",
+ "C14": "Added later: kvno values differing by multiples of 256, near-miss lookups whose rendering equals a stored entry's (separator inside a component), holes as first record.",
+ "C15": "Added later: tickets with and without kvno mixed, repeated services (last written wins), every pair of different address / authorization-data counts 0..3, versions parsed in alternation in one process.",
+ "C16": "Added later: final-value markers in isolation for all four server kinds, preferred_preauth_types in the documented blank-separated form, realm names that are not upper case, boundary-value grids over every field of the three duration formats (seconds; h:m[:s] with hours up to 999; every subset of d/h/m/s units), three consecutive lookups per random outcome.",
+ "C17": "Added later: sequence numbers above 2^32, keys differing in one bit, payload slices with spare capacity, tokens verified twice, presented checksums shortened or extended.",
+ "C18": "Added later: the first challenge must be answered, every token sent must be fresh and acceptable at its destination (strict reference decode of the AP-REQ and authenticator), bodies read back from the returned response, redirect loops.",
+ "C19": "Added later: PACs laid out for one declared type and signed with another mechanism of equal length, repeated group SIDs among the extra SIDs, duplicated signature buffers and trailing bytes, every declared checksum type -200..200 outside the supported five with value lengths {0,1,12,16,20,24} under a key of every etype, one PACType value processing two PACs in turn.",
+ "C20": "Added later: unused keytab entries with marker keys, the whole C09 perturbation catalogue on both exchanges (incl. enc-parts that decrypt but do not decode), ccache files of every version and header shape with all 256 values of every header byte, an operation that makes JSON renderings fail (times outside years 0..9999), tickets renewed after expiry, marshal-after-decrypt of request bodies carrying a decrypted additional ticket.",
+}
+
 TODO_REASON = "check not yet built in this revision of /verif (work in progress; see DESIGN.md section 2 for the planned bounded-exhaustive exploration)"
 
 def main():
@@ -161,7 +185,7 @@ def main():
             "evidence_file": "/verif/evidence/%s.json" % i,
             "replay_cmd_template": "bin/check replay {path}",
             "engine": c["engine"],
-            "level_claimed": {"category": c["category"], "text": c["text"], "design_ref": c["design"]},
+            "level_claimed": {"category": c["category"], "text": c["text"] + (" " + EXT[i] if i in EXT else ""), "design_ref": c["design"]},
             "level_note": c["note"],
             "technique": c["technique"],
         })
@@ -177,8 +201,10 @@ def main():
             "add_only": True,
         },
         "engines": [
-            {"name": "sched", "path": "shim/vsched, engine/explore.go", "serves_properties": ["C02", "C11", "C10"], "kind_free_text": "cooperative scheduler + stateless DFS over schedules with iterative preemption bounding, determinism gate, deadlock detection"},
+            {"name": "sched", "path": "shim/vsched, engine/explore.go", "serves_properties": ["C02", "C03", "C05", "C06", "C07", "C10", "C11"], "kind_free_text": "cooperative scheduler + stateless DFS over schedules with iterative preemption bounding, determinism gate, deadlock detection"},
             {"name": "bfs", "path": "checks/*/hist.go", "serves_properties": ["C02", "C10", "C18"], "kind_free_text": "explicit-state breadth-first search over operation histories on fresh real objects, canonical-state deduplication, reference-model oracle"},
+            {"name": "guard", "path": "engine/guard.go", "serves_properties": ["C03", "C04", "C11", "C18", "C19"], "kind_free_text": "fault-isolating worker subprocesses (address-space limit, stall watchdog, in-flight input record, resume after death) that run enumeration shards and attribute a fatal death or stall to the exact input"},
+            {"name": "race", "path": "engine/race.go", "serves_properties": ["C02", "C05", "C06", "C07", "C11"], "kind_free_text": "free-running -race pass over the same scenario bodies (dynamic complement for unsynchronised accesses the cooperative scheduler cannot see); only reports with both accesses in gokrb5 code count"},
             {"name": "enum", "path": "engine/", "serves_properties": [], "kind_free_text": "bounded-exhaustive enumeration of input spaces (full products / deviation neighbourhoods) against independent reference models"},
         ],
         "checks": checks,
